@@ -427,8 +427,12 @@ func (c *costClient) stop() {
 
 // measure runs one input through the probe (restarting it when needed).
 func (c *costClient) measure(entry string, b []byte) costMeasure {
-	if c.Timeout == 0 {
-		c.Timeout = 20 * time.Second
+	// watchdog: 5 s for small inputs (they decode in milliseconds), up to 20 s
+	// for a full-size datagram (the dearest legitimate input needs ~2 s of wall
+	// time for decode + re-encode when several probes run side by side)
+	timeout := c.Timeout
+	if timeout == 0 {
+		timeout = 5*time.Second + time.Duration(len(b))*15*time.Second/maxUDP
 	}
 	if c.cmd == nil {
 		if err := c.start(); err != nil {
@@ -453,8 +457,8 @@ func (c *costClient) measure(entry string, b []byte) costMeasure {
 			r.Hang = true
 		}
 		return r
-	case <-time.After(c.Timeout):
+	case <-time.After(timeout):
 		c.stop()
-		return costMeasure{N: len(b), Hang: true}
+		return costMeasure{N: len(b), Hang: true, DecNs: -int64(timeout)}
 	}
 }
